@@ -34,7 +34,7 @@ structure DState where
   tcpq : Option TcpProd.St := none
   c15 : C15.St := {}
   localrec : Option LocalRec.DSt := none
-  allow : Option MetricsVerif.Allowlist.Sess := none
+  allow : Allowlist.DSt := none
   debug : Option Debugging.DSt := none
   registry : Option Registry.St := none
   reservoir : Option MetricsVerif.Reservoir.ASR := none
